@@ -91,15 +91,37 @@ def rule_a(ctx):
     # CombinedModel routing
     f = m.func(COMB, "CombinedModel.update_model_parameters")
     ctx.consult(COMB)
-    am = AM(f)
-    ok = am.has(f.node, f"cache = {f.params[1]}.copy()") is not None and am.has(
-        f.node, "for pos, model in enumerate(self.models):\n    model.update_model_parameters(cache)\n    cache = cache[model.num_parameters:]") is not None
-    ctx.ob(R, f.qname, "CombinedModel: parameters are consumed left to right, num_parameters per sub-model, in self.models order", ok, str(am.show()), f.node)
+    # folded symbolically on two sub-models with 2 and 3 parameters: each sub-model must be handed the parameter vector from its own offset on
+    from ..fold import Folder as _F, Obj as _O, Opaque as _Op, Raised as _Ra, Refuse as _Re
+
+    ms = [_O("m0", {"num_parameters": 2}), _O("m1", {"num_parameters": 3})]
+    P = [_Op("p", f"p{i}") for i in range(5)]
+    fo = _F(symbolic=True)
+    fo.func_stack.append(f.node)
+    try:
+        fo.call(f.node, [_O("self", {"models": ms}), P, None])
+        got = [repr(t) for t in fo.trace if ".update_model_parameters(" in repr(t)]
+        plist = lambda k: "[" + ", ".join(f"<opaque p p{i}>" for i in range(k, 5)) + "]"
+        want = [f"m0.update_model_parameters({plist(0)})", f"m1.update_model_parameters({plist(2)})"]
+        ctx.ob(R, f.qname, "CombinedModel: parameters are consumed left to right, num_parameters per sub-model, in self.models order", got == want,
+               f"sub-models with 2 and 3 parameters receive {got}", f.node, evidence=True)
+    except (_Re, _Ra) as e:
+        ctx.ob(R, f.qname, "CombinedModel: parameters are consumed left to right, num_parameters per sub-model, in self.models order", False, f"routing not found to be foldable: {e}", f.node)
     init = m.func(COMB, "CombinedModel.__init__")
-    am = AM(init)
-    tot = am.has(init.node, "self.num_parameters = sum([model.num_parameters if hasattr(model, 'num_parameters') else 0 for model in self.models])")
-    n_tot = sum(1 for s in ast.walk(init.node) if isinstance(s, (ast.Assign, ast.AugAssign)) and self_attr(s.targets[0] if isinstance(s, ast.Assign) else s.target) == "num_parameters")
-    ctx.ob(R, init.qname, "CombinedModel: num_parameters is the sum over the sub-models", tot is not None and n_tot == 1, "", init.node)
+    me = _O("self", {})
+    fo = _F(symbolic=True)
+    fo.func_stack.append(init.node)
+    env = {init.params[0]: me, init.params[1]: ms + [_O("m2", {})]}
+    for st in init.node.body:
+        try:
+            fo.stmt(st, env)
+        except (_Re, _Ra):
+            pass
+    npar = me.fields.get("num_parameters")
+    if isinstance(npar, int):
+        ctx.ob(R, init.qname, "CombinedModel: num_parameters is the sum over the sub-models (models without parameters count 0)", npar == 5, f"sub-models with 2, 3 and no parameters give num_parameters = {npar}", init.node, evidence=True)
+    else:
+        ctx.ob(R, init.qname, "CombinedModel: num_parameters is the sum over the sub-models (models without parameters count 0)", False, "num_parameters not found by the symbolic fold", init.node)
 
 def rule_b(ctx):
     R = "C14.b"
@@ -292,7 +314,9 @@ def rule_e(ctx):
                 if t in pmap:
                     return pmap[t]
                 return None
-            return ToPoly(atomize=atom)(rets[0])
+            from ..flow import expand as _ex
+
+            return ToPoly(atomize=atom)(_ex(call.node, rets[0]))
 
         def loop_form(expr, env, idx):
             def atom(n):
@@ -367,14 +391,18 @@ def rule_e(ctx):
         ok = len(rets) == 1 and isinstance(rets[0], ast.Call) and norm(rets[0].func) == inner.name and [norm(a) for a in rets[0].args[:3]] == lc.params[1:4] and norm(rets[0].args[3]) in pmap
         ctx.ob(R, lc.qname, f"{cname}: the numba kernel receives (signal, supports, weights, kernel parameter)", ok, norm(rets[0]) if rets else "", lc.node)
     base = m.method(m.cls(KER, "BaseKernel"), "linear_combination")
-    amb = AM(base)
-    b_sig, b_sup, b_w = base.params[1:4]
-    ok = all(amb.has(base.node, t) is not None for t in (
-        f"count = len({b_sup})",
-        f"acc = {b_w}[0] * self.__call__({b_sig}, {b_sup}[0])",
-        f"for n in range(1, count):\n    acc += {b_w}[n] * self.__call__({b_sig}, {b_sup}[n])",
-        "return acc"))
-    ctx.ob(R, base.qname, "plain kernel sum: weights[0]*k(signal, supports[0]) + sum_n weights[n]*k(signal, supports[n])", ok, str(amb.show()), base.node)
+    from ..fold import Folder as _F, Obj as _O, Opaque as _Op, Raised as _Ra, Refuse as _Re
+
+    fo = _F(symbolic=True)
+    fo.func_stack.append(base.node)
+    try:
+        r_ = fo.call(base.node, [_O("self", {}), _Op("arr", "X"), [_Op("s", f"S{i}") for i in range(3)], [_Op("w", f"W{i}") for i in range(3)]])
+        term = lambda i: f"*(<opaque w W{i}>, self.__call__(<opaque arr X>, <opaque s S{i}>))"
+        want = f"+(+({term(0)}, {term(1)}), {term(2)})"
+        ctx.ob(R, base.qname, "plain kernel sum: weights[0]*k(signal, supports[0]) + sum_n weights[n]*k(signal, supports[n])", repr(r_) == want,
+               f"for three supports the plain sum evaluates to {r_!r}", base.node, evidence=True)
+    except (_Re, _Ra) as e:
+        ctx.ob(R, base.qname, "plain kernel sum: weights[0]*k(signal, supports[0]) + sum_n weights[n]*k(signal, supports[n])", False, f"plain sum not found to be foldable: {e}", base.node)
     ki = m.func(KINT, "KernelInterpolation.__call__")
     calls = [c for c in ast.walk(ki.node) if isinstance(c, ast.Call) and norm(c.func) == "self.kernel.linear_combination"]
     ok = len(calls) == 1 and [norm(a) for a in calls[0].args] == [f"{ki.params[1]}.astype(np.float32)", "self.supports", "self.interpolation_weights.astype(np.float32)"]
@@ -417,6 +445,7 @@ def rule_f(ctx):
         for kk in range(sz if isinstance(sz, int) else 0):
             env = {"self": me, basis.params[2]: kk, basis.params[1]: Opaque("np.ndarray", "x")}
             fo = Folder()
+            fo.func_stack.append(basis.node)
             try:
                 fo.block(pre, env)
                 got.append((fo.ev(exps["0"], env), fo.ev(exps["1"], env)))
@@ -486,23 +515,33 @@ def rule_h(ctx):
     m = ctx.model
     f = m.func(KINT, "KernelInterpolation.setup_kernel_problem")
     ctx.instance(R)
-    outer = [l for l in ast.walk(f.node) if isinstance(l, ast.For) and any(isinstance(b, ast.For) for b in l.body)]
-    ctx.need(len(outer) == 1, f"{f.qname}: double loop filling the kernel matrix not found")
-    o = outer[0]
-    inner = [b for b in o.body if isinstance(b, ast.For)][0]
-    i, j = norm(o.target), norm(inner.target)
-    full_o = norm(o.iter) == "range(self.num_supports)"
-    it = norm(inner.iter)
-    shape = "full" if it == "range(self.num_supports)" else ("upper+diag" if it == f"range({i}, self.num_supports)" else ("upper" if it == f"range({i} + 1, self.num_supports)" else "other"))
-    stores = {norm(s_.targets[0]): norm(s_.value) for s_ in inner.body if isinstance(s_, ast.Assign)}
-    main = stores.get(f"self.X[{i}, {j}]") == f"self.kernel(self.supports[{i}], self.supports[{j}])"
-    mirror = stores.get(f"self.X[{j}, {i}]") in (f"self.X[{i}, {j}]", f"self.kernel(self.supports[{j}], self.supports[{i}])", f"self.kernel(self.supports[{i}], self.supports[{j}])")
-    diag = any(isinstance(s_, ast.Assign) and norm(s_.targets[0]) == f"self.X[{i}, {i}]" and norm(s_.value) == f"self.kernel(self.supports[{i}], self.supports[{i}])" for s_ in o.body)
-    ok = full_o and main and (shape == "full" or (shape == "upper+diag" and mirror) or (shape == "upper" and mirror and diag))
-    ctx.ob(R, f.qname, "every entry X[i, j], diagonal included, is kernel(supports[i], supports[j])", ok,
-           f"outer {norm(o.iter)}, inner {it} ({shape}), stores {stores}: entries not covered keep the initial value of the matrix", o)
-    am = AM(f)
-    ctx.ob(R, f.qname, "the inverse is taken of that matrix", am.has(f.node, "self.Xinv = np.linalg.inv(self.X)") is not None, "", f.node)
+    # the set-up is folded symbolically for two symbolic supports (helpers of the class are followed, statements outside the folding
+    # language are skipped): it must leave X = [[k(S0,S0), k(S0,S1)], [k(S1,S0), k(S1,S1)]]
+    from ..fold import Arr
+    from ..fold import Sym as _Sym
+
+    me = Obj("self", {"num_supports": 2, "supports": [Opaque("s", "S0"), Opaque("s", "S1")], "kernel": Opaque("callable", "K"), "values": Opaque("v", "V")})
+    fo = Folder(symbolic=True)
+    fo.fold_all_methods = True
+    fo.func_stack.append(f.node)
+    env = {f.params[0]: me}
+    for st in f.node.body:
+        try:
+            fo.stmt(st, env)
+        except (Refuse, Raised):
+            pass
+    X = me.fields.get("X")
+    want = [[f"self.kernel(<opaque s S{i}>, <opaque s S{j}>)" for j in range(2)] for i in range(2)]
+    if not isinstance(X, Arr):
+        ctx.ob(R, f.qname, "every entry X[i, j], diagonal included, is kernel(supports[i], supports[j])", False, "assembly of self.X not found by the symbolic fold", f.node)
+    else:
+        got = [[repr(v) for v in row] for row in X.data]
+        ctx.ob(R, f.qname, "every entry X[i, j], diagonal included, is kernel(supports[i], supports[j])", got == want,
+               f"for two supports the set-up leaves X = {got}: entries that are not kernel evaluations keep the initial value of the matrix", f.node, evidence=True)
+    from ..amatch import has_in_helpers
+
+    hit, _, _ = has_in_helpers(f, "self.Xinv = np.linalg.inv(self.X)")
+    ctx.ob(R, f.qname, "the inverse is taken of that matrix", hit is not None, "", f.node)
     ctx.floor(R, 1)
 
 
